@@ -13,7 +13,7 @@ build_demo() { g++ -std=c++17 -O1 -g -I. "$SEED/demo.cpp" -pthread $FLAGS -o "$D
 run_demo() { timeout 300 "$D/$1" > "$D/$1.out" 2>&1; echo $?; }
 build_demo clean || { echo "RESULT seed=$SEED demo-build-failed-on-clean"; cat "$D/clean.build.log" | tail -5; exit 1; }
 RC_CLEAN=$(run_demo clean)
-git apply "$SEED/patch.diff" || { echo "RESULT seed=$SEED patch-does-not-apply"; exit 1; }
+git apply --ignore-whitespace "$SEED/patch.diff" || { echo "RESULT seed=$SEED patch-does-not-apply"; exit 1; }
 build_demo patched || { echo "RESULT seed=$SEED demo-build-failed-with-patch"; git checkout -q -- xenium; exit 1; }
 RC_PATCHED=$(run_demo patched)
 RC_PATCHED2=$(run_demo patched)
